@@ -15,7 +15,10 @@ interpreted over terms instead of bytes:
             opaque values are equal when their texts are equal.
 
 Control: constant tests are decided; an undecidable test forks the path (bounded); loops over
-constant ranges / literal tuples are unrolled (bounded), any other loop havocs what it assigns.
+constant ranges / literal tuples are unrolled (bounded), a `while` whose test is decided by the values
+known at every iteration is unrolled (bounded, no break / continue), any other loop havocs what it assigns.
+A rule can hand the evaluator a Model object (a reader over a fixed byte string, a recording field
+writer): method calls on it are answered by the model.
 `raise` ends a path.  Nothing of the repository is executed: the interpreter only knows the
 operations listed above, everything else is an Opaque term.
 """
@@ -85,6 +88,15 @@ class Hash:
 
 class ByteArray(list):
     pass
+
+
+class Model:
+    """an object whose methods are answered by the rule that supplied it (never by repository code)"""
+    def call(self, attr: str, args: list, kw: dict):
+        return NotImplemented
+
+    def __deepcopy__(self, memo):
+        return self             # shared by the paths of one evaluation
 
 
 class Closure:
@@ -502,9 +514,17 @@ class TermEval:
             h = Hash()
             h.inputs.extend(args)
             return h
+        if cn == 'struct.unpack' and len(args) == 2 and isinstance(args[0], str) and isinstance(args[1], bytes):
+            import struct as _struct
+            try:
+                return tuple(_struct.unpack(args[0], args[1]))
+            except _struct.error:
+                return NotImplemented
         if isinstance(f, ast.Attribute):
             recv = self.eval(f.value, env)
             a = f.attr
+            if isinstance(recv, Model):
+                return recv.call(a, args, kw)
             if isinstance(recv, dict) and a == 'update':
                 srcs = [x for x in args] + ([kw] if kw else [])
                 if all(isinstance(x, dict) for x in srcs) and not any(k.arg is None for k in e.keywords):
@@ -598,6 +618,11 @@ class TermEval:
                 if a == 'insert' and len(args) == 2 and isinstance(args[0], int):
                     recv.insert(args[0], args[1])
                     return None
+                if a == 'pop' and len(args) <= 1 and all(isinstance(x, int) for x in args) and recv:
+                    try:
+                        return recv.pop(*args)
+                    except IndexError:
+                        return NotImplemented
         return NotImplemented
 
     def _user_function(self, e: ast.Call, env: dict):
@@ -660,7 +685,7 @@ class TermEval:
         return paths[0].result
 
     def truth(self, v) -> bool:
-        if isinstance(v, (Opaque, Xor, Digest, Hash)):
+        if isinstance(v, (Opaque, Xor, Digest, Hash, Term)):
             raise Undecided
         if isinstance(v, SymStr):
             return len(v) > 0
@@ -796,6 +821,28 @@ class TermEval:
                     return paths
             return paths
         if isinstance(st, ast.While):
+            # unrolled while every test is decided by the values known on this path (constant propagation);
+            # a loop with break / continue / else, or one whose body forks, is not followed
+            simple = not st.orelse and not any(isinstance(n, (ast.Break, ast.Continue, ast.Return)) for n in ast.walk(st))
+            if not simple:
+                self._havoc([st], env)
+                return [p]
+            for _ in range(MAX_ITER):
+                try:
+                    t = self.truth(self.eval(st.test, env))
+                except Undecided:
+                    self._havoc([st], env)
+                    return [p]
+                if not t:
+                    return [p]
+                forks = self.forks
+                out = self._block(st.body, [p])
+                if len(out) != 1 or self.forks != forks:
+                    for q in out:
+                        self._havoc([st], q.env)
+                    return out
+                if p.done:
+                    return [p]
             self._havoc([st], env)
             return [p]
         if isinstance(st, (ast.With, ast.AsyncWith)):
